@@ -1,7 +1,8 @@
 (* C14 dispatch: [dfa, start?, strict, lo, hi?] ->
-   op 1: [successors, successor]; op 2: [predecessors, predecessor] *)
+   op 1: [successors, successor]; op 2: [predecessors, predecessor] (specification model);
+   op 3 / op 4: the mirror stack machine, forward / reverse: [generated list] *)
 From Coq Require Import List Arith NArith Bool.
-From AV Require Import Base.Util Base.ITree Spec.Lang Spec.FA Model.Codec Model.Succ.
+From AV Require Import Base.Util Base.ITree Spec.Lang Spec.FA Model.Codec Model.Succ Model.SuccMachine.
 Import ListNotations.
 
 Definition enc_words (l : list word) : itree := enc_list enc_nats l.
@@ -16,6 +17,8 @@ Definition d14 (op : nat) (t : itree) : itree :=
                 enc_res (enc_opt enc_nats) (successor_m m start strict lo ohi)]
       | 2 => L [enc_res enc_words (pred_m m start strict lo ohi);
                 enc_res (enc_opt enc_nats) (predecessor_m m start strict lo ohi)]
+      | 3 => L [enc_res enc_words (succ_machine (machine_fuel m start ohi) m start strict false lo ohi)]
+      | 4 => L [enc_res enc_words (succ_machine (machine_fuel m start ohi) m start strict true lo ohi)]
       | _ => bad_input
       end
     | _, _, _, _, _ => bad_input
